@@ -285,7 +285,7 @@ func c11BlankSources(c *vlib.Ctx, dir string) {
 }
 
 func C11(c *vlib.Ctx) {
-	c.Rule("generated configurations (0-3 global pull tokens, 2-4 pull routes with 0-2 own tokens, 0-2 admin tokens as raw:/env:/file: refs) run through the production wiring; the queue is pre-loaded with ready and leased messages whose lease ids the caller knows; every endpoint x {dequeue, ack, nack, extend} over HTTP and gRPC and every Admin endpoint/method pair (incl. /healthz, mutations and unknown paths) is called with each credential variant (absent, empty, scheme alone, valid, prefix/suffix/+1 char/case variant, another route's token, the global token on an override route, Basic, no scheme, two values, NUL). Independent allowlist oracle: not authorized => 401/Unauthenticated and snapshot unchanged; authorized => not 401 (vacuity guard). Configurations with a pull route lacking any token must not compile. distinct_nontrivial = distinct (surface, operation, credential variant, authorized, outcome) classes.")
+	c.Rule("generated configurations (0-3 global pull tokens, 2-4 pull routes with 0-2 own tokens, 0-2 admin tokens as raw:/env:/file: refs) run through the production wiring; the queue is pre-loaded with ready and leased messages whose lease ids the caller knows; every endpoint x {dequeue, ack, nack, extend} over HTTP and gRPC and every Admin endpoint/method pair (incl. /healthz, mutations and unknown paths) is called with each credential variant (absent, empty, scheme alone, valid, prefix/suffix/+1 char/case variant, another route's token, the global token on an override route, Basic, no scheme, two values, NUL). Independent allowlist oracle: not authorized => 401/Unauthenticated and snapshot unchanged; authorized => not 401 (vacuity guard). Configurations with a pull route lacking any token must not compile. Every third configuration is probed again after a reload the process must refuse (ingress listener moved) whose file carries another token layout (all tokens replaced, or another generated layout, possibly without admin tokens): the allowlists of the running configuration stay in force and the refused file's tokens are tried as foreign ones. distinct_nontrivial = distinct (surface, operation, credential variant, authorized, outcome) classes.")
 	c.Assume("lower-case scheme spelling and a valid token in a second header value are treated as ambiguous (either answer accepted); whitespace-only variations of a valid header are not generated")
 	dir := c.Scratch()
 	c11BlankSources(c, dir)
@@ -376,163 +376,218 @@ func C11(c *vlib.Ctx) {
 					fmt.Sprintf("%s %s with a valid token of the addressed endpoint was answered 401", surface, op), wit)
 			}
 		}
-		// ---- Pull HTTP + gRPC ----
-		endpoints := append([]pullRouteRef{}, cfg.Routes...)
-		endpoints = append(endpoints, pullRouteRef{Endpoint: "/unknown"})
-		for _, ep := range endpoints {
-			allow, configured := cfg.allowlist(ep.Endpoint)
-			var foreign []string
-			for _, other := range cfg.Routes {
-				if other.Endpoint != ep.Endpoint {
-					foreign = append(foreign, other.Tokens...)
-				}
-			}
-			if len(ep.Tokens) > 0 {
-				foreign = append(foreign, cfg.Global...) // the global token on an override route
-			}
-			for _, cr := range c11Creds(r, allow, foreign) {
-				authorized := cr.Token != "" && contains(allow, cr.Token)
-				if len(allow) == 0 {
-					authorized = true // nothing configured for an unknown endpoint without global tokens
-				}
-				for _, op := range []string{"dequeue", "ack", "nack", "extend"} {
-					lease := known[ep.Endpoint]
-					if lease == "" {
-						lease = "lease_none"
-					}
-					body := map[string]any{}
-					switch op {
-					case "dequeue":
-						body["batch"] = 2
-					case "ack", "nack":
-						body["lease_id"] = lease
-					case "extend":
-						body["lease_id"], body["extend_by"] = lease, "1m"
-					}
-					pp := a.Compiled.PullAPI.Prefix
-					target := pp + ep.Endpoint + "/" + op
-					if r.Chance(0.1) && len(cfg.Routes) > 1 {
-						target = pp + cfg.Routes[(ci+1)%len(cfg.Routes)].Endpoint + "/.." + ep.Endpoint + "/" + op // dot-segment detour
-					}
-					if r.Chance(0.25) {
-						// non-canonical spellings that clean to the same endpoint/operation: the
-						// handler and the authorizer must agree on which endpoint is addressed
-						switch r.Intn(5) {
-						case 0:
-							target += "/"
-						case 1:
-							target += "/."
-						case 2:
-							target += "/x/.."
-						case 3:
-							target = pp + ep.Endpoint + "//" + op
-						case 4:
-							target = pp + ep.Endpoint + "/./" + op + "/"
+		// Every third configuration is probed a second time after a reload that the
+		// process must refuse (the new file moves the ingress listener: restart
+		// required) and that carries a different token layout: other tokens, other
+		// overrides, possibly no admin tokens. The allowlists in force stay those of
+		// the running configuration.
+		phases := 1
+		if ci%3 == 1 {
+			phases = 2
+		}
+		var rejectedTokens []string
+		for phase := 0; phase < phases; phase++ {
+			if phase == 1 {
+				alt := c11Config(vlib.Derive(c.Seed, "C11alt", ci), dir, false)
+				if ci%2 == 1 {
+					// same routes and endpoints as the running file, every token replaced
+					alt = c11Cfg{Text: cfg.Text}
+					for _, lst := range [][]string{cfg.Global, cfg.Admin} {
+						for _, t := range lst {
+							alt.Text = strings.ReplaceAll(alt.Text, "raw:"+t, "raw:rejected-"+t)
+							alt.Global = append(alt.Global, "rejected-"+t)
 						}
 					}
-					wit := map[string]any{"config": cfg.Text, "target": target, "credential": cr.Name, "values": cr.Values, "endpoint_configured": configured}
-					if cr.Name == "token_with_nul" {
-						// not representable on the HTTP/2 wire the same way; HTTP only
+					for _, rt := range cfg.Routes {
+						for _, t := range rt.Tokens {
+							alt.Text = strings.ReplaceAll(alt.Text, "raw:"+t, "raw:rejected-"+t)
+							alt.Global = append(alt.Global, "rejected-"+t)
+						}
 					}
-					// HTTP
+				}
+				altText := strings.Replace(alt.Text, "ingress { listen 127.0.0.1:0 }", "ingress { listen 127.0.0.9:0 }", 1)
+				_ = a.WriteConfig(altText)
+				applied := a.Reload()
+				c.Count("refused_reload_phases", 1)
+				c.Distinct("nontrivial", fmt.Sprintf("refused_reload_phase:applied=%v:alt_admin_tokens=%d:alt_global_tokens=%d", applied, len(alt.Admin), len(alt.Global)))
+				if applied {
+					c.Violation(vlib.Signature{"class": "restart_required_reload_applied"}, "a reload that moves the ingress listener was reported as applied", map[string]any{"running": cfg.Text, "new_file": altText})
+					break
+				}
+				rejectedTokens = append(append(append([]string{}, alt.Global...), alt.Admin...))
+				for _, rt := range alt.Routes {
+					rejectedTokens = append(rejectedTokens, rt.Tokens...)
+				}
+			}
+			// ---- Pull HTTP + gRPC ----
+			endpoints := append([]pullRouteRef{}, cfg.Routes...)
+			endpoints = append(endpoints, pullRouteRef{Endpoint: "/unknown"})
+			for _, ep := range endpoints {
+				allow, configured := cfg.allowlist(ep.Endpoint)
+				var foreign []string
+				for _, other := range cfg.Routes {
+					if other.Endpoint != ep.Endpoint {
+						foreign = append(foreign, other.Tokens...)
+					}
+				}
+				if len(ep.Tokens) > 0 {
+					foreign = append(foreign, cfg.Global...) // the global token on an override route
+				}
+				for _, t := range rejectedTokens { // tokens that exist only in the refused file
+					if !contains(allow, t) {
+						foreign = append(foreign, t)
+					}
+				}
+				for _, cr := range c11Creds(r, allow, foreign) {
+					authorized := cr.Token != "" && contains(allow, cr.Token)
+					if len(allow) == 0 {
+						authorized = true // nothing configured for an unknown endpoint without global tokens
+					}
+					for _, op := range []string{"dequeue", "ack", "nack", "extend"} {
+						lease := known[ep.Endpoint]
+						if lease == "" {
+							lease = "lease_none"
+						}
+						body := map[string]any{}
+						switch op {
+						case "dequeue":
+							body["batch"] = 2
+						case "ack", "nack":
+							body["lease_id"] = lease
+						case "extend":
+							body["lease_id"], body["extend_by"] = lease, "1m"
+						}
+						pp := a.Compiled.PullAPI.Prefix
+						target := pp + ep.Endpoint + "/" + op
+						if r.Chance(0.1) && len(cfg.Routes) > 1 {
+							target = pp + cfg.Routes[(ci+1)%len(cfg.Routes)].Endpoint + "/.." + ep.Endpoint + "/" + op // dot-segment detour
+						}
+						if r.Chance(0.25) {
+							// non-canonical spellings that clean to the same endpoint/operation: the
+							// handler and the authorizer must agree on which endpoint is addressed
+							switch r.Intn(5) {
+							case 0:
+								target += "/"
+							case 1:
+								target += "/."
+							case 2:
+								target += "/x/.."
+							case 3:
+								target = pp + ep.Endpoint + "//" + op
+							case 4:
+								target = pp + ep.Endpoint + "/./" + op + "/"
+							}
+						}
+						wit := map[string]any{"config": cfg.Text, "target": target, "credential": cr.Name, "values": cr.Values, "endpoint_configured": configured}
+						if cr.Name == "token_with_nul" {
+							// not representable on the HTTP/2 wire the same way; HTTP only
+						}
+						// HTTP
+						before := snap()
+						req := l2.JSONReq("POST", target, body, "")
+						req.Header.Del("Authorization")
+						for _, v := range cr.Values {
+							req.Header.Add("Authorization", v)
+						}
+						resp := l2.Do(a.Pull, req)
+						wit["status"] = resp.Status
+						check("pull_http", op, cr.Name, authorized, cr.Ambiguous, resp.Status == 401, before, wit)
+						if authorized && !cr.Ambiguous && op != "dequeue" {
+							// restore the lease for the next probes (an authorized ack/nack consumed it)
+							if resp2, _ := a.Store.Dequeue(queue.DequeueRequest{Route: ep.Route, Target: "pull", Batch: 1, LeaseTTL: time.Hour}); len(resp2.Items) == 1 {
+								known[ep.Endpoint] = resp2.Items[0].LeaseID
+								lease = resp2.Items[0].LeaseID
+							}
+						}
+						// gRPC
+						if cr.Name == "token_with_nul" {
+							continue
+						}
+						ctx := context.Background()
+						if cr.Values != nil {
+							md := metadata.MD{}
+							for _, v := range cr.Values {
+								md.Append("authorization", v)
+							}
+							ctx = metadata.NewOutgoingContext(ctx, md)
+						}
+						before = snap()
+						var gerr error
+						switch op {
+						case "dequeue":
+							_, gerr = gc.Dequeue(ctx, &workerapipb.DequeueRequest{Endpoint: ep.Endpoint, Batch: 2})
+						case "ack":
+							_, gerr = gc.Ack(ctx, &workerapipb.AckRequest{Endpoint: ep.Endpoint, LeaseId: lease})
+						case "nack":
+							_, gerr = gc.Nack(ctx, &workerapipb.NackRequest{Endpoint: ep.Endpoint, LeaseId: lease})
+						case "extend":
+							_, gerr = gc.Extend(ctx, &workerapipb.ExtendRequest{Endpoint: ep.Endpoint, LeaseId: lease, ExtendBy: durationpb.New(time.Minute)})
+						}
+						wit2 := map[string]any{"config": cfg.Text, "endpoint": ep.Endpoint, "credential": cr.Name, "values": cr.Values, "grpc_code": status.Code(gerr).String()}
+						check("worker_grpc", op, cr.Name, authorized, cr.Ambiguous, status.Code(gerr) == codes.Unauthenticated, before, wit2)
+						if authorized && !cr.Ambiguous && op != "dequeue" {
+							if resp2, _ := a.Store.Dequeue(queue.DequeueRequest{Route: ep.Route, Target: "pull", Batch: 1, LeaseTTL: time.Hour}); len(resp2.Items) == 1 {
+								known[ep.Endpoint] = resp2.Items[0].LeaseID
+							}
+						}
+					}
+				}
+			}
+			// ---- Admin ----
+			type adminCall struct {
+				method, target string
+				body           any
+			}
+			calls := []adminCall{
+				{"GET", "/admin/healthz", nil}, {"GET", "/admin/messages", nil}, {"GET", "/admin/dlq", nil}, {"GET", "/admin/backlog/top_queued", nil},
+				{"GET", "/admin/backlog/trends", nil}, {"GET", "/admin/attempts", nil}, {"GET", "/admin/nope", nil}, {"POST", "/admin/healthz", nil},
+				{"POST", "/admin/dlq/requeue", map[string]any{"ids": []string{"deadone"}}},
+				{"POST", "/admin/dlq/delete", map[string]any{"ids": []string{"deadone"}}},
+				{"POST", "/admin/messages/cancel", map[string]any{"ids": []string{cfg.Routes[0].Route[1:] + "-m1"}}},
+				{"POST", "/admin/messages/cancel_by_filter", map[string]any{"route": cfg.Routes[0].Route, "limit": 10}},
+				{"POST", "/admin/messages/publish", map[string]any{"items": []map[string]any{{"id": "pub1", "route": cfg.Routes[0].Route, "payload_b64": "eA=="}}}},
+				{"GET", "/admin/applications/app/endpoints", nil},
+				{"DELETE", "/admin/applications/app/endpoints/ep", nil},
+			}
+			prefix := a.Compiled.AdminAPI.Prefix
+			adminForeign := append(append([]string{}, cfg.Global...), cfg.Routes[0].Tokens...)
+			for _, t := range rejectedTokens {
+				if !contains(cfg.Admin, t) {
+					adminForeign = append(adminForeign, t)
+				}
+			}
+			for _, cr := range c11Creds(r, cfg.Admin, adminForeign) {
+				authorized := len(cfg.Admin) == 0 || (cr.Token != "" && contains(cfg.Admin, cr.Token))
+				for _, call := range calls {
+					target := prefix + strings.TrimPrefix(call.target, "/admin")
 					before := snap()
-					req := l2.JSONReq("POST", target, body, "")
-					req.Header.Del("Authorization")
+					req := l2.JSONReq(call.method, target, call.body, "")
 					for _, v := range cr.Values {
 						req.Header.Add("Authorization", v)
 					}
-					resp := l2.Do(a.Pull, req)
-					wit["status"] = resp.Status
-					check("pull_http", op, cr.Name, authorized, cr.Ambiguous, resp.Status == 401, before, wit)
-					if authorized && !cr.Ambiguous && op != "dequeue" {
-						// restore the lease for the next probes (an authorized ack/nack consumed it)
-						if resp2, _ := a.Store.Dequeue(queue.DequeueRequest{Route: ep.Route, Target: "pull", Batch: 1, LeaseTTL: time.Hour}); len(resp2.Items) == 1 {
-							known[ep.Endpoint] = resp2.Items[0].LeaseID
-							lease = resp2.Items[0].LeaseID
-						}
+					req.Header.Set("X-Hookaido-Audit-Reason", "verif")
+					resp := l2.Do(a.Admin, req)
+					wit := map[string]any{"config": cfg.Text, "method": call.method, "target": target, "credential": cr.Name, "values": cr.Values, "status": resp.Status}
+					amb := cr.Ambiguous
+					if len(cfg.Admin) == 0 {
+						amb = false
 					}
-					// gRPC
-					if cr.Name == "token_with_nul" {
+					if authorized || amb {
+						// an authorized admin call may legitimately change the queue; only the 401 clause matters
+						c.Count("evaluations", 1)
+						c.Distinct("nontrivial", fmt.Sprintf("admin:%s %s:%s:auth=true:%d", call.method, call.target, cr.Name, resp.Status))
+						if !amb && resp.Status == 401 {
+							c.Violation(vlib.Signature{"class": "authorized_rejected", "surface": "admin", "op": call.method + " " + call.target, "credential": cr.Name}, "admin call with a valid admin token answered 401", wit)
+						}
+						if !amb {
+							authorizedSeen++
+						}
 						continue
 					}
-					ctx := context.Background()
-					if cr.Values != nil {
-						md := metadata.MD{}
-						for _, v := range cr.Values {
-							md.Append("authorization", v)
-						}
-						ctx = metadata.NewOutgoingContext(ctx, md)
-					}
-					before = snap()
-					var gerr error
-					switch op {
-					case "dequeue":
-						_, gerr = gc.Dequeue(ctx, &workerapipb.DequeueRequest{Endpoint: ep.Endpoint, Batch: 2})
-					case "ack":
-						_, gerr = gc.Ack(ctx, &workerapipb.AckRequest{Endpoint: ep.Endpoint, LeaseId: lease})
-					case "nack":
-						_, gerr = gc.Nack(ctx, &workerapipb.NackRequest{Endpoint: ep.Endpoint, LeaseId: lease})
-					case "extend":
-						_, gerr = gc.Extend(ctx, &workerapipb.ExtendRequest{Endpoint: ep.Endpoint, LeaseId: lease, ExtendBy: durationpb.New(time.Minute)})
-					}
-					wit2 := map[string]any{"config": cfg.Text, "endpoint": ep.Endpoint, "credential": cr.Name, "values": cr.Values, "grpc_code": status.Code(gerr).String()}
-					check("worker_grpc", op, cr.Name, authorized, cr.Ambiguous, status.Code(gerr) == codes.Unauthenticated, before, wit2)
-					if authorized && !cr.Ambiguous && op != "dequeue" {
-						if resp2, _ := a.Store.Dequeue(queue.DequeueRequest{Route: ep.Route, Target: "pull", Batch: 1, LeaseTTL: time.Hour}); len(resp2.Items) == 1 {
-							known[ep.Endpoint] = resp2.Items[0].LeaseID
-						}
-					}
+					check("admin", call.method+" "+call.target, cr.Name, false, false, resp.Status == 401, before, wit)
 				}
 			}
-		}
-		// ---- Admin ----
-		type adminCall struct {
-			method, target string
-			body           any
-		}
-		calls := []adminCall{
-			{"GET", "/admin/healthz", nil}, {"GET", "/admin/messages", nil}, {"GET", "/admin/dlq", nil}, {"GET", "/admin/backlog/top_queued", nil},
-			{"GET", "/admin/backlog/trends", nil}, {"GET", "/admin/attempts", nil}, {"GET", "/admin/nope", nil}, {"POST", "/admin/healthz", nil},
-			{"POST", "/admin/dlq/requeue", map[string]any{"ids": []string{"deadone"}}},
-			{"POST", "/admin/dlq/delete", map[string]any{"ids": []string{"deadone"}}},
-			{"POST", "/admin/messages/cancel", map[string]any{"ids": []string{cfg.Routes[0].Route[1:] + "-m1"}}},
-			{"POST", "/admin/messages/cancel_by_filter", map[string]any{"route": cfg.Routes[0].Route, "limit": 10}},
-			{"POST", "/admin/messages/publish", map[string]any{"items": []map[string]any{{"id": "pub1", "route": cfg.Routes[0].Route, "payload_b64": "eA=="}}}},
-			{"GET", "/admin/applications/app/endpoints", nil},
-			{"DELETE", "/admin/applications/app/endpoints/ep", nil},
-		}
-		prefix := a.Compiled.AdminAPI.Prefix
-		for _, cr := range c11Creds(r, cfg.Admin, append(append([]string{}, cfg.Global...), cfg.Routes[0].Tokens...)) {
-			authorized := len(cfg.Admin) == 0 || (cr.Token != "" && contains(cfg.Admin, cr.Token))
-			for _, call := range calls {
-				target := prefix + strings.TrimPrefix(call.target, "/admin")
-				before := snap()
-				req := l2.JSONReq(call.method, target, call.body, "")
-				for _, v := range cr.Values {
-					req.Header.Add("Authorization", v)
-				}
-				req.Header.Set("X-Hookaido-Audit-Reason", "verif")
-				resp := l2.Do(a.Admin, req)
-				wit := map[string]any{"config": cfg.Text, "method": call.method, "target": target, "credential": cr.Name, "values": cr.Values, "status": resp.Status}
-				amb := cr.Ambiguous
-				if len(cfg.Admin) == 0 {
-					amb = false
-				}
-				if authorized || amb {
-					// an authorized admin call may legitimately change the queue; only the 401 clause matters
-					c.Count("evaluations", 1)
-					c.Distinct("nontrivial", fmt.Sprintf("admin:%s %s:%s:auth=true:%d", call.method, call.target, cr.Name, resp.Status))
-					if !amb && resp.Status == 401 {
-						c.Violation(vlib.Signature{"class": "authorized_rejected", "surface": "admin", "op": call.method + " " + call.target, "credential": cr.Name}, "admin call with a valid admin token answered 401", wit)
-					}
-					if !amb {
-						authorizedSeen++
-					}
-					continue
-				}
-				check("admin", call.method+" "+call.target, cr.Name, false, false, resp.Status == 401, before, wit)
-			}
-		}
+		} // phases
 		if ci < 2 {
 			c.Sample(map[string]any{"config": cfg.Text, "known_leases": known})
 		}
